@@ -147,6 +147,7 @@ long nondet_long(void);
 
 #define VF_ASSERT(c, msg)  __CPROVER_assert(c, msg)
 #define VF_ASSUME(c)       __CPROVER_assume(c)
+#define VF_SCEN(nt)        ((void)0)
 
 #else
 /* ---------------------------------------------------------------- NATIVE mode */
@@ -182,8 +183,12 @@ static inline unsigned long long vf_input(const char * name, int * found)
 #define VF_IN_BOOL(name)   (vf_w_##name = (_Bool)vf_input(#name, NULL))
 
 extern int vf_native_failures;
-#define VF_NCHECK(c, msg) do { if (!(c)) { vf_native_failures++; \
-        printf("NATIVE-CHECK-FAILED: %s\n", msg); } else { printf("native-check-ok: %s\n", msg); } } while (0)
+extern unsigned long vf_native_checks, vf_native_scen, vf_native_scen_nt;
+void vf_native_note(const char * msg);
+#define VF_NCHECK(c, msg) do { vf_native_checks++; vf_native_note(msg); if (!(c)) { vf_native_failures++; \
+        printf("NATIVE-CHECK-FAILED: %s\n", msg); } } while (0)
+/* one enumerated scenario of a bounded harness; nt: non-trivial by the harness's own rule */
+#define VF_SCEN(nt)       do { vf_native_scen++; if (nt) vf_native_scen_nt++; } while (0)
 #define VF_END()
 #define VF_REACH(c, msg)
 #define VF_ASSERT(c, msg)  VF_NCHECK(c, msg)
